@@ -409,8 +409,13 @@ class Frame:
                 cur = nxt
                 keys.append(k_ or "expr:" + ast.unparse(item.context_expr)[:60])
             self.held.extend(keys)
+            body_stmts = st.body
+            for mi, (t, (xo, xfn)) in enumerate(managers):
+                wrapped = self._exit_as_handlers(st, body_stmts, t, xfn, cur, mi)
+                if wrapped is not None:
+                    body_stmts = wrapped
             try:
-                outs = self.block(st.body, cur)
+                outs = self.block(body_stmts, cur)
             finally:
                 del self.held[len(self.held) - len(keys):]
             for t, (xo, xfn) in reversed(managers):
@@ -624,6 +629,55 @@ class Frame:
                 return Seq(base + (list(t.items) if isinstance(t, Seq) else [Sym("star", (t,))]))
         return Sym("binop:" + type(st.op).__name__, (cur, t))
 
+    def _exit_as_handlers(self, st, body, cm_term: Term, xfn: ast.FunctionDef, paths: List[Path], idx: int):
+        """A context-manager class whose ``__exit__`` acts on the exception by type —
+        ``if isinstance(exc, T): raise X(...) from exc`` / ``return True`` — is, by the definition of ``with``,
+        ``try: BODY except T as exc: <what __exit__ does>; re-raised unless it returned true``.
+        The body is wrapped in that ``try`` (the call of ``__exit__`` is left to the interpreter, so helpers and
+        the object's fields are looked through as usual)."""
+        names = [a.arg for a in xfn.args.posonlyargs + xfn.args.args]
+        if len(names) < 3:
+            return None
+        types_: List[ast.expr] = []
+        swallows_or_raises = True
+        for s_ in xfn.body:
+            if isinstance(s_, ast.Expr) and isinstance(s_.value, ast.Constant):
+                continue
+            if isinstance(s_, ast.If) and isinstance(s_.test, ast.Call) and isinstance(s_.test.func, ast.Name) and len(s_.test.args) == 2 \
+                    and ((s_.test.func.id == "isinstance" and isinstance(s_.test.args[0], ast.Name) and s_.test.args[0].id == names[2])
+                         or (s_.test.func.id == "issubclass" and isinstance(s_.test.args[0], ast.Name) and s_.test.args[0].id == names[1])) and not s_.orelse:
+                types_.append(s_.test.args[1])
+                last = s_.body[-1] if s_.body else None
+                if not (isinstance(last, ast.Raise) or (isinstance(last, ast.Return) and isinstance(last.value, ast.Constant) and last.value.value is True)):
+                    swallows_or_raises = False
+                continue
+            if isinstance(s_, ast.Return) and (s_.value is None or (isinstance(s_.value, ast.Constant) and not s_.value.value)):
+                continue
+            return None
+        if not types_:
+            return None
+        n_ = self.ctx.__dict__.setdefault("synth_n", 0)
+        self.ctx.synth_n = n_ + 1
+        cm_name, ex_name = f"cm$x{n_}", f"exc$x{n_}"
+        for q in paths:
+            q.env[cm_name] = cm_term
+        call = ast.Call(func=ast.Attribute(value=ast.Name(id=cm_name, ctx=ast.Load()), attr="__exit__", ctx=ast.Load()),
+                        args=[ast.Call(func=ast.Name(id="type", ctx=ast.Load()), args=[ast.Name(id=ex_name, ctx=ast.Load())], keywords=[]),
+                              ast.Name(id=ex_name, ctx=ast.Load()), ast.Constant(value=None)], keywords=[])
+        handlers = []
+        for ty in types_:
+            hbody: List[ast.stmt] = [ast.Expr(value=call)]
+            if not swallows_or_raises:
+                hbody = [ast.If(test=ast.UnaryOp(op=ast.Not(), operand=call), body=[ast.Raise(exc=None, cause=None)], orelse=[])]
+            handlers.append(ast.ExceptHandler(type=ty, name=ex_name, body=hbody))
+        tr = ast.Try(body=list(body), handlers=handlers, orelse=[], finalbody=[])
+        ast.copy_location(tr, st)
+        ast.fix_missing_locations(tr)
+        for n2 in ast.walk(tr):
+            if hasattr(n2, "lineno") and not getattr(n2, "lineno", None):
+                n2.lineno = st.lineno
+        return [tr]
+
     def assign(self, tg, t: Term, p: Path, st):
         if isinstance(tg, ast.Name):
             p.env[tg.id] = t
@@ -724,6 +778,12 @@ class Frame:
         if isinstance(test, ast.Call) and isinstance(test.func, ast.Name) and test.func.id == "isinstance" and len(test.args) == 2:
             t = self.peek(test.args[0], p)
             classes = test.args[1].elts if isinstance(test.args[1], ast.Tuple) else [test.args[1]]
+            caught = getattr(t, "caught_as", None)
+            if caught:
+                # the exception a handler caught is an instance of what the handler names
+                asked = [ast.unparse(c).split(".")[-1] for c in classes]
+                if any(exc_is_subclass(self.repo, c_, a_) for c_ in caught for a_ in asked) and len(caught) == 1:
+                    return True
             names = []
             for c in classes:
                 r = self.repo.resolve_expr(self.module, c)
@@ -771,6 +831,14 @@ class Frame:
                 res = a.v == b.v and type(a.v) is type(b.v)
             elif (self._is_object(a) and isinstance(b, Const)) or (self._is_object(b) and isinstance(a, Const)):
                 res = False
+            elif self._private_sentinel(a) and self._private_sentinel(a) == self._private_sentinel(b):
+                res = True          # the marker against itself
+            elif self._private_sentinel(a) != self._private_sentinel(b) and (self._private_sentinel(a) or self._private_sentinel(b)):
+                # a private module-level ``object()`` marker ("argument not given") against a value that reached the library
+                # from outside — a parameter of the analysed function, a field of the object, a constant: never that marker
+                other = b if self._private_sentinel(a) else a
+                if isinstance(other, (Child, New, Const)) or (isinstance(other, Sym) and not other.args and not other.text and other.head.isidentifier()):
+                    res = False
             if res is None:
                 return None
             return res if isinstance(test.ops[0], ast.Is) else (not res)
@@ -803,6 +871,19 @@ class Frame:
                 return True
         return None
 
+    def _private_sentinel(self, t) -> Optional[str]:
+        """Qualified name when the term is a module-level ``_NAME = object()`` of the repository, else None."""
+        if isinstance(t, Sym) and t.head == "global" and t.text:
+            mod, _, name = t.text.rpartition(".")
+            m = self.repo.modules.get(mod)
+            if m is not None and name.startswith("_"):
+                for s_ in m.tree.body:
+                    tg = s_.targets[0] if isinstance(s_, ast.Assign) and len(s_.targets) == 1 else (s_.target if isinstance(s_, ast.AnnAssign) else None)
+                    v = getattr(s_, "value", None)
+                    if isinstance(tg, ast.Name) and tg.id == name and isinstance(v, ast.Call) and isinstance(v.func, ast.Name) and v.func.id == "object" and not v.args:
+                        return t.text
+        return None
+
     @staticmethod
     def _is_object(t) -> bool:
         """A term that certainly denotes an object (never None / a constant): a constructed
@@ -827,6 +908,8 @@ class Frame:
                 return Const(MISSING)
             if e.id == "None":
                 return Const(None)
+            if r and r[0] == "var" and e.id.startswith("_") and isinstance(r[1], ast.Call) and isinstance(r[1].func, ast.Name) and r[1].func.id == "object" and not r[1].args:
+                return Sym("global", text=f"{r[2].name}.{e.id}")        # a private module-level marker
             return None
         if isinstance(e, ast.Constant):
             return Const(e.value)
@@ -1118,22 +1201,25 @@ class Frame:
             is_whole = len(elems) == 1 and not early and not isinstance(it, Seq) and not getattr(it, "partial", False)
             if is_whole:
                 self.ctx.whole += 1
+            exact = isinstance(it, Seq) and not any(isinstance(x, Sym) and x.head == "star" for x in it.items)
             try:
-                self._for_body(st, q, elems, out, nonempty=bool(getattr(it, "nonempty", False)))
+                self._for_body(st, q, elems, out, nonempty=bool(getattr(it, "nonempty", False)), exact=exact)
             finally:
                 if is_whole:
                     self.ctx.whole -= 1
         return dedupe(out)
 
-    def _for_body(self, st, q: Path, elems: List[Term], out: List[Path], nonempty: bool = False) -> None:
+    def _for_body(self, st, q: Path, elems: List[Term], out: List[Path], nonempty: bool = False, exact: bool = False) -> None:
         pending = [q]
         natural: List[Path] = []  # paths on which the iterable is exhausted
-        n_iter = self.ctx.unroll if len(elems) == 1 else len(elems)
+        # one element stands for "any number of them" unless the iterable is a display whose items are known (``[alias]``)
+        abstract = len(elems) == 1 and not exact
+        n_iter = self.ctx.unroll if abstract else len(elems)
         for i in range(n_iter):
             el = elems[0] if len(elems) == 1 else elems[i]
             nxt = []
             for r in pending:
-                if len(elems) == 1 and not (i == 0 and nonempty):
+                if abstract and not (i == 0 and nonempty):
                     natural.append(r.fork())  # the loop ends before this iteration
                 body_in = r.fork()
                 self.assign(st.target, el, body_in, st)
@@ -1220,7 +1306,11 @@ class Frame:
         for hi, hp in handler_inputs:
             h = st.handlers[hi]
             if h.name:
-                hp.env[h.name] = hp.env.get("<exc>", Opaque("exc"))
+                ex_t = hp.env.get("<exc>", Opaque("exc"))
+                if isinstance(ex_t, Sym) and ex_t.head == "exc-of":
+                    ex_t = Sym("exc-of", ex_t.args)
+                    ex_t.caught_as = [ast.unparse(t_).split(".")[-1] for t_ in (h.type.elts if isinstance(h.type, ast.Tuple) else [h.type])] if h.type is not None else []
+                hp.env[h.name] = ex_t
             hp.conds.append((f"except {htypes[hi]}", True, ""))
             implicit = not getattr(hp, "explicit_exc", False) and _only_reraises(h) and not getattr(self.ctx, "keep_reraise", False)
             for q in self.block(h.body, [hp]):
@@ -2218,6 +2308,12 @@ class Frame:
             if pos:
                 base = pos[0].args if isinstance(pos[0], Sym) and pos[0].head == "dict" else (Sym("dstar", (pos[0],)),)
             return [(p, Sym("dict", tuple(base) + tuple(Sym("item", (Const(k), v)) for k, v in kw.items())))]
+        if (name in ("typing.cast", "typing_extensions.cast") or (short == "cast" and callee.head == "ext")) and len(pos) == 2 and not kw:
+            return [(p, pos[1])]        # cast(T, x) is x
+        if name == "functools.update_wrapper" and pos:
+            # update_wrapper(wrapper, wrapped, …) hands the wrapper back (what it copies is judged by R-UW)
+            self.ev(p, "call", text=name, args=tuple(pos) + tuple(Sym("kw:" + k, (v,)) for k, v in sorted(kw.items())), line=line)
+            return [(p, pos[0])]
         if short in ("tuple", "list", "set", "frozenset", "iter") and len(pos) == 1 and not kw:
             t = pos[0]
             if isinstance(t, (Coll, Child, Seq)):
@@ -2427,15 +2523,20 @@ class Frame:
                     keep.setdefault(k_, (q_, t_))
                 res_ = list(keep.values())
             return res_
-        if target is self.selfterm and isinstance(target, Child) and self.cls is not None and op in OPS:
-            r = self.cls.find_method(op)
-            tag = (self.cls.qualname, op)
+        scls = self.cls if (target is self.selfterm and self.cls is not None) else None
+        if scls is None and isinstance(target, Child) and target.key() == SELF.key() and self.selfterm is not target:
+            # the analysed object handed to a plain helper function (``_call_evaluated(self, value, options)``): an operation
+            # on it there is the object's own operation
+            scls = getattr(self.ctx, "root_cls", None)
+        if scls is not None and isinstance(target, Child) and op in OPS:
+            r = scls.find_method(op)
+            tag = (scls.qualname, op)
             if r is not None and tag not in self.ctx.unfolding and self.depth < self.ctx.max_depth and r[0].name not in ("Evaluatable", "Cacheable", "Validatable", "Explainable"):
                 owner, fn = r
                 self.ctx.unfolding.append(tag)
                 try:
                     e = self.ev(p, "selfop", op=op, target=target, opts=opts, line=line)
-                    return self.inline(owner.module, self.cls, fn, target, None,
+                    return self.inline(owner.module, scls, fn, target, None,
                                        self.bind_params(fn, True, pos, kw, owner.module), p, node,
                                        via=self.via + (f"<self>.{op}",))
                 finally:
@@ -2530,6 +2631,11 @@ class Frame:
             return Const(d.value)
         if isinstance(d, ast.Name) and d.id == "MISSING":
             return Const(MISSING)
+        if isinstance(d, ast.Name) and d.id.startswith("_"):
+            # a private module-level marker as default (``extra=_UNCHANGED``): the marker itself
+            r = self.repo.resolve_name(module, d.id)
+            if r and r[0] == "var" and isinstance(r[1], ast.Call) and isinstance(r[1].func, ast.Name) and r[1].func.id == "object" and not r[1].args:
+                return Sym("global", text=f"{r[2].name}.{d.id}")
         return Sym("default", text=ast.unparse(d)[:40])
 
     def inline(self, module: Module, owner: Optional[ClassInfo], fn, selfterm, selfattrs,
@@ -2589,6 +2695,11 @@ class Frame:
                 out.append((c, Opaque("raised")))
             else:
                 c.init_env = q.env
+                if selfterm is not None and selfterm is self.selfterm and not isinstance(fn, ast.Lambda):
+                    # a method of the same object: what it stored on self is there for the caller too
+                    for k_, v_ in q.env.items():
+                        if k_.startswith("self."):
+                            c.env[k_] = v_
                 out.append((c, q.ret if q.ret is not None else Const(None)))
         return out
 
@@ -3112,6 +3223,13 @@ def _apply_private_decorators(ctx: Ctx, module: Module, fn, fr: "Frame") -> Opti
         if isinstance(f0, ast.Name) and f0.id.startswith("_"):
             r = ctx.repo.resolve_name(module, f0.id)
             if r and r[0] == "func":
+                decos.append(d)
+        elif isinstance(f0, (ast.Name, ast.Attribute)):
+            # ``@runtime._bypass_when(...)`` / ``@_switches.unless(...)``: a private function of another module of the
+            # package, or any function of a private module (one whose name starts with an underscore)
+            r = ctx.repo.resolve_expr(module, f0)
+            if r and r[0] == "func" and (r[1].node.name.startswith("_") or r[1].module.name.rsplit(".", 1)[-1].startswith("_")) \
+                    and not r[1].module.name.startswith("labrea.mypy"):
                 decos.append(d)
     if not decos:
         return None
